@@ -3,6 +3,8 @@ package engines
 import (
 	"encoding/json"
 	"fmt"
+	"regexp"
+	"strconv"
 	"strings"
 	"time"
 
@@ -269,7 +271,7 @@ func (c *opCtx) applySelectOp(s *influxql.SelectStatement, op Op) (result string
 		return core.Canon(influxql.Reduce(pickExpr(s, op.Arg), c.valuer)), nil
 	case "Eval":
 		ve := influxql.ValuerEval{Valuer: c.valuer, IntegerFloatDivision: c.env.IntDiv}
-		return fmt.Sprintf("%#v", ve.Eval(pickExpr(s, op.Arg))), nil
+		return canonValue(ve.Eval(pickExpr(s, op.Arg))), nil
 	case "EvalBool":
 		ve := influxql.ValuerEval{Valuer: c.valuer, IntegerFloatDivision: c.env.IntDiv}
 		return fmt.Sprint(ve.EvalBool(s.Condition)), nil
@@ -282,7 +284,7 @@ func (c *opCtx) applySelectOp(s *influxql.SelectStatement, op Op) (result string
 		}
 		var sb strings.Builder
 		for _, f := range s.Fields {
-			fmt.Fprintf(&sb, "%#v;", influxql.Eval(f.Expr, m))
+			fmt.Fprintf(&sb, "%s;", canonValue(influxql.Eval(f.Expr, m)))
 		}
 		fmt.Fprint(&sb, influxql.EvalBool(s.Condition, m))
 		return sb.String(), nil
@@ -364,6 +366,26 @@ func (c *opCtx) applySelectOp(s *influxql.SelectStatement, op Op) (result string
 		return sb.String(), nil
 	}
 	return "", nil
+}
+
+// canonValue renders an evaluation result without addresses.
+func canonValue(v interface{}) string {
+	switch x := v.(type) {
+	case nil:
+		return "<nil>"
+	case bool, int64, uint64, int, string, time.Duration:
+		return fmt.Sprintf("%T(%v)", x, x)
+	case float64:
+		return "float64(" + strconv.FormatFloat(x, 'g', -1, 64) + ")"
+	case time.Time:
+		return fmt.Sprintf("time(%d,%s)", x.UnixNano(), x.Location())
+	case *regexp.Regexp:
+		if x == nil {
+			return "regexp(nil)"
+		}
+		return "regexp(" + x.String() + ")"
+	}
+	return fmt.Sprintf("%T", v)
 }
 
 type stopVisitor struct{ n, stopAt int }
